@@ -310,80 +310,108 @@ fn probe_bits<T: Sc>(cfg: &CfgJ, rep: &mut Report) {
     rep.count("bit_pattern_probes", 1);
 }
 
-/// Beyond the universe TLC enumerates: a model with 300 parameters (positions beyond 255 and beyond
-/// any small fixed-size index type), covered by 30 functions of arity 10 whose declaration order is a
-/// scrambled stride through the model's list.  Routing and derivative placement are checked by plain
-/// indexing: function j puts its arguments into the first cells of its column.
-fn probe_large<T: Sc>(rep: &mut Report) {
-    let p = 300usize;
-    let nf = 30usize;
-    let mp: Vec<String> = (0..p).map(|k| format!("p{k}")).collect();
-    // function j takes the parameters j + 30 i (i = 0..9), in the order i = 3, 9, 0, 7, 1, 8, 2, 6, 4, 5
-    let perm = [3usize, 9, 0, 7, 1, 8, 2, 6, 4, 5];
-    let idx_of = |j: usize, slot: usize| j + nf * perm[slot];
-    let funs: Vec<FunJ> = (0..nf)
-        .map(|j| FunJ { ps: (0..10).map(|s| format!("p{}", idx_of(j, s))).collect(), dord: if j % 2 == 0 { "fwd".into() } else { "rev".into() } })
-        .collect();
-    let cfg = CfgJ { funs, mp, bad: BadJ { j: 0, which: 0, how: "ok".into() } };
-    let det = |what: &str, got: String| json!({"ctx": "300 parameter model", "scalar": T::NAME, "what": what, "got": got});
-    let mut m = match catch_unwind(AssertUnwindSafe(|| build_model::<T>(&cfg))) {
+/// Beyond the universe TLC enumerates: models checked by plain indexing.  Function j puts its
+/// arguments (in its own declaration order) into the first cells of its column, derivative closures
+/// add a tag 100 (j+1) + (position of the parameter in the function's list) behind them.
+fn check_cfg_by_indexing<T: Sc>(cfg: &CfgJ, label: &str, deriv_ks: &[usize], rep: &mut Report) {
+    let p = cfg.mp.len();
+    let det = |what: &str, got: String| json!({"ctx": label, "scalar": T::NAME, "what": what, "got": got});
+    let pos_of = |name: &String| cfg.mp.iter().position(|n| n == name).expect("function parameter is a model parameter");
+    let mut m = match catch_unwind(AssertUnwindSafe(|| build_model::<T>(cfg))) {
         Ok(Ok(m)) => m,
         other => {
-            rep.violation("C16", det("a valid model with 300 parameters failed to build", format!("{:?}", other.map(|r| r.map(|_| ())))));
+            rep.violation("C16", det("a valid model failed to build", format!("{:?}", other.map(|r| r.map(|_| ())))));
             return;
         }
     };
     // distinct values, exact in both scalar types
     let vals: Vec<T> = (0..p).map(|k| T::of64(1000.0 + k as f64)).collect();
     if !matches!(catch_unwind(AssertUnwindSafe(|| m.set_params(DVector::from_vec(vals.clone())))), Ok(Ok(()))) {
-        rep.violation("C17", det("set_params with 300 values failed", String::new()));
+        rep.violation("C17", det("set_params with a vector of the right length failed", String::new()));
         return;
     }
     rep.check("C16", bits_eq(m.params().as_slice(), &vals), 0.0, || det("params() differ from what was set", String::new()));
     match catch_unwind(AssertUnwindSafe(|| m.eval())) {
         Ok(Ok(phi)) => {
             let mut bad = Vec::new();
-            for j in 0..nf {
-                for s in 0..10 {
-                    if phi[(s, j)].bits() != vals[idx_of(j, s)].bits() && bad.len() < 5 {
-                        bad.push(format!("function {} argument {} is {} but parameter p{} = {}", j, s, phi[(s, j)].to64(), idx_of(j, s), vals[idx_of(j, s)].to64()));
+            for (j, f) in cfg.funs.iter().enumerate() {
+                for (s, name) in f.ps.iter().enumerate() {
+                    let k = pos_of(name);
+                    if phi[(s, j)].bits() != vals[k].bits() && bad.len() < 5 {
+                        bad.push(format!("function {} argument {} is {} but parameter {} = {}", j, s, phi[(s, j)].to64(), name, vals[k].to64()));
                     }
                 }
             }
             rep.check("C16", bad.is_empty(), 0.0, || det("a function received a value that is not its named parameter", bad.join("; ")));
         }
-        other => rep.violation("C16", det("eval() of the 300 parameter model failed", format!("{:?}", other.map(|r| r.map(|_| ()).map_err(|e| err_kind(&e)))))),
+        other => rep.violation("C16", det("eval() failed", format!("{:?}", other.map(|r| r.map(|_| ()).map_err(|e| err_kind(&e)))))),
     }
-    for k in [0usize, 29, 30, 127, 128, 255, 256, 257, 270, 299] {
+    for &k in deriv_ks {
         match catch_unwind(AssertUnwindSafe(|| m.eval_partial_deriv(k))) {
             Ok(Ok(d)) => {
                 let mut bad = Vec::new();
-                let owner = k % nf;
-                for j in 0..nf {
+                for (j, f) in cfg.funs.iter().enumerate() {
+                    let own_pos = f.ps.iter().position(|n| n == &cfg.mp[k]);
                     for i in 0..NX.min(d.nrows()) {
                         let got = d[(i, j)].to64();
-                        let exp = if j != owner {
-                            0.0
-                        } else if i < 10 {
-                            vals[idx_of(j, i)].to64()
-                        } else if i == 10 {
-                            // tag of the derivative: 100 (j+1) + position of the parameter in the function's list
-                            let pos = (0..10).find(|&s| idx_of(j, s) == k).unwrap() + 1;
-                            (100 * (j + 1) + pos) as f64
-                        } else {
-                            0.0
+                        let exp = match own_pos {
+                            None => 0.0,
+                            Some(pos) => {
+                                if i < f.ps.len() {
+                                    vals[pos_of(&f.ps[i])].to64()
+                                } else if i == f.ps.len() {
+                                    (100 * (j + 1) + pos + 1) as f64
+                                } else {
+                                    0.0
+                                }
+                            }
                         };
                         if got != exp && bad.len() < 5 {
-                            bad.push(format!("d/dp{} column {} row {}: {} instead of {}", k, j, i, got, exp));
+                            bad.push(format!("d/d{} column {} row {}: {} instead of {}", cfg.mp[k], j, i, got, exp));
                         }
                     }
                 }
                 rep.check("C16", bad.is_empty(), 0.0, || det("derivative column misplaced or evaluated with wrong arguments", bad.join("; ")));
             }
-            other => rep.violation("C16", det(&format!("eval_partial_deriv({k}) of the 300 parameter model failed"), format!("{:?}", other.map(|r| r.map(|_| ()).map_err(|e| err_kind(&e)))))),
+            other => rep.violation("C16", det(&format!("eval_partial_deriv({k}) failed"), format!("{:?}", other.map(|r| r.map(|_| ()).map_err(|e| err_kind(&e)))))),
         }
     }
+}
+
+/// a model with 300 parameters (positions beyond 255 and beyond any small fixed-size index type),
+/// covered by 30 functions of arity 10 whose declaration order is a scrambled stride through the list
+fn probe_large<T: Sc>(rep: &mut Report) {
+    let p = 300usize;
+    let nf = 30usize;
+    let mp: Vec<String> = (0..p).map(|k| format!("p{k}")).collect();
+    let perm = [3usize, 9, 0, 7, 1, 8, 2, 6, 4, 5];
+    let funs: Vec<FunJ> = (0..nf)
+        .map(|j| FunJ { ps: (0..10).map(|s| format!("p{}", j + nf * perm[s])).collect(), dord: if j % 2 == 0 { "fwd".into() } else { "rev".into() } })
+        .collect();
+    let cfg = CfgJ { funs, mp, bad: BadJ { j: 0, which: 0, how: "ok".into() } };
+    check_cfg_by_indexing::<T>(&cfg, "300 parameter model", &[0, 29, 30, 127, 128, 255, 256, 257, 270, 299], rep);
     rep.count("large_model_probes", 1);
+}
+
+/// several functions with OVERLAPPING parameter sets and different arities (and an invariant function
+/// in between), under parameter names whose lexicographic, numeric and declaration orders all differ
+fn probe_overlap<T: Sc>(rep: &mut Report) {
+    for names in [["a", "b", "c", "d"], ["10", "2", "1", "01"], ["x2", "x", "x10", "X"]] {
+        let n = |i: usize| names[i].to_string();
+        let f = |ps: Vec<usize>, d: &str| FunJ { ps: ps.into_iter().map(n).collect(), dord: d.into() };
+        let funs = vec![
+            f(vec![0, 1], "fwd"),
+            f(vec![1], "fwd"),
+            f(vec![2, 0, 1], "rev"),
+            FunJ { ps: vec![], dord: "fwd".into() },
+            f(vec![2], "fwd"),
+            f(vec![3, 2, 1, 0], "rev"),
+            f(vec![1, 3], "fwd"),
+        ];
+        let cfg = CfgJ { funs, mp: names.iter().map(|s| s.to_string()).collect(), bad: BadJ { j: 0, which: 0, how: "ok".into() } };
+        check_cfg_by_indexing::<T>(&cfg, &format!("seven functions with overlapping parameter sets, names {:?}", names), &[0, 1, 2, 3], rep);
+    }
+    rep.count("overlap_model_probes", 1);
 }
 
 pub fn run(path: &str) -> Report {
@@ -428,6 +456,8 @@ pub fn run(path: &str) -> Report {
     }
     probe_large::<f64>(&mut total);
     probe_large::<f32>(&mut total);
+    probe_overlap::<f64>(&mut total);
+    probe_overlap::<f32>(&mut total);
     total.count("sequences", groups.len() as u64);
     total
 }
